@@ -23,16 +23,16 @@ PKG = "internal/query"
 # (vk, alphabet, max symbols, headers)
 VALUES_QUICK = [
     ("num", "raw", 3, "base"), ("num", "parts", 3, "base"), ("num", "parts", 2, "all"),
-    ("time", "raw", 2, "base"), ("time", "parts", 3, "base"),
-    ("host", "raw", 3, "base"), ("host", "masks", 3, "base"),
-    ("proto", "raw", 3, "base"), ("data", "raw", 2, "all"), ("tag", "raw", 2, "all"),
+    ("time", "raw", 2, "keys"), ("time", "parts", 3, "base"),
+    ("host", "raw", 3, "base"), ("host", "masks", 3, "base"), ("host", "masks", 2, "all"),
+    ("proto", "raw", 3, "base"), ("data", "raw", 2, "keys"), ("tag", "raw", 3, "base"),
     ("sort", "raw", 3, "base"), ("limit", "raw", 3, "base"), ("group", "raw", 3, "base"),
 ]
 VALUES_THOROUGH = [
-    ("num", "raw", 4, "base"), ("num", "parts", 4, "base"), ("num", "parts", 3, "all"),
-    ("time", "raw", 3, "base"), ("time", "parts", 4, "base"), ("time", "parts", 2, "all"),
-    ("host", "raw", 4, "base"), ("host", "masks", 3, "all"),
-    ("proto", "raw", 4, "base"), ("proto", "raw", 2, "all"), ("data", "raw", 3, "base"), ("data", "raw", 2, "all"),
+    ("num", "raw", 4, "keys"), ("num", "parts", 4, "keys"), ("num", "parts", 3, "all"),
+    ("time", "raw", 3, "keys"), ("time", "parts", 4, "keys"), ("time", "parts", 2, "all"),
+    ("host", "raw", 4, "keys"), ("host", "masks", 3, "all"),
+    ("proto", "raw", 4, "base"), ("proto", "raw", 2, "all"), ("data", "raw", 3, "keys"), ("data", "raw", 2, "all"),
     ("tag", "raw", 3, "all"), ("sort", "raw", 4, "base"), ("limit", "raw", 4, "base"), ("group", "raw", 4, "base"),
 ]
 
@@ -109,32 +109,40 @@ def _last_row(path):
 
 def _run_shard(ctx, binpath, inp, outp, budget_ms, flood, deadline):
     """Runs the harness over one input file; restarts it after every hang / crash.
-    Returns (restarts, crashes, degraded)."""
+    Returns (restarts, crashes, degraded level, truncated)."""
     env = common.go_env()
     env.update({"VERIF_IN": inp, "VERIF_OUT": outp, "VERIF_SEED": str(ctx.seed), "VERIF_TIER": ctx.tier,
                 "VERIF_BUDGET_MS": str(budget_ms), "VERIF_INFLIGHT": outp + ".inflight",
                 "VERIF_MUTPCT": os.environ.get("VERIF_MUTPCT", "30")})
-    restarts = crashes = full_timeouts = 0
-    degraded = False
+    restarts = crashes = full_timeouts = reduced_timeouts = 0
+    degraded = 0
     while True:
         if time.time() > deadline:
-            raise Infra("parser harness exceeded its time budget (%d restarts)" % restarts)
+            return restarts, crashes, degraded, True
         try:
             p = subprocess.run([binpath, "-test.run", "^TestVerifParser$", "-test.timeout", "0"],
                                cwd=os.path.dirname(outp), env=env, stdout=subprocess.PIPE, stderr=subprocess.STDOUT,
                                text=True, errors="replace", timeout=max(30, deadline - time.time()))
         except subprocess.TimeoutExpired:
-            raise Infra("parser harness process did not finish (watchdog inside the harness failed?)")
+            return restarts, crashes, degraded, True
         if p.returncode == 0 and "PASS" in p.stdout:
-            return restarts, crashes, degraded
+            return restarts, crashes, degraded, False
         restarts += 1
         if p.returncode == 3:
             row = _last_row(outp)
+            # a flood of hangs (one defect hit by thousands of inputs) must not eat the time budget: after
+            # `flood` hangs under the full budget the rest runs with 250 ms, after 10 x flood more with 60 ms;
+            # a time-out under a reduced budget is never a verdict ("inconclusive")
             if row and row.get("verdict") == "timeout" and row.get("budget", 0) >= 2000:
                 full_timeouts += 1
-                if full_timeouts >= flood and not degraded:
-                    degraded = True
-                    env["VERIF_BUDGET_MS"] = "250"
+                if full_timeouts >= flood and degraded == 0:
+                    degraded = 1
+                    env["VERIF_BUDGET_MS"] = env["VERIF_SHORT_MS"] = "250"
+            elif row and row.get("verdict") == "timeout" and degraded == 1:
+                reduced_timeouts += 1
+                if reduced_timeouts >= 10 * flood:
+                    degraded = 2
+                    env["VERIF_BUDGET_MS"] = env["VERIF_SHORT_MS"] = "60"
             continue
         # the process died although every panic is recovered: fatal runtime error (stack overflow, out of
         # memory, ...) while the case named in the in-flight file was running -> an observation, not infra
@@ -172,7 +180,7 @@ def run(ctx):
                      _cfg("value", n, ctx.seed, vk=vk, alpha=alpha, hdrs=hdrs), [], 2))
     jobs.append(("tok_all", _cfg("tokens", 4 if quick else 5, ctx.seed), [], 4))
     jobs.append(("tok_gram", _cfg("tokens", 5 if quick else 7, ctx.seed, gram=True), [], 4))
-    jobs.append(("pairs", _cfg("pairs", 2, ctx.seed), [], 2))
+    jobs.append(("pairs", _cfg("pairs", 2, ctx.seed, hdrs="base" if quick else "all"), [], 2))
     nsim = 8 if quick else 60
     jobs.append(("sim_gram", _cfg("sim", 12, ctx.seed, gram=True, inv="EmitSim"),
                  ["-simulate", "num=%d" % nsim, "-depth", "12", "-seed", str(ctx.seed)], 1))
@@ -235,7 +243,7 @@ def run(ctx):
         inp = os.path.join(wd, "in_%d.ndjson" % s)
         write_ndjson(inp, [{k: r[k] for k in ("id", "mode", "vk", "toks", "syn", "size", "wf")} for r in order[s::nshards]])
         shard_files.append((inp, os.path.join(wd, "out_%d.ndjson" % s)))
-    deadline = t_start + (150 if quick else 1000)
+    deadline = t_start + (105 if quick else 800)
     flood = 3 if quick else 6
     with concurrent.futures.ThreadPoolExecutor(max_workers=nshards) as ex:
         stats = list(ex.map(lambda io: _run_shard(ctx, binpath, io[0], io[1], 2000, flood, deadline), shard_files))
@@ -246,13 +254,14 @@ def run(ctx):
     restarts = sum(s[0] for s in stats)
     crashes = sum(s[1] for s in stats)
     degraded = sum(1 for s in stats if s[2])
+    truncated = sum(1 for s in stats if s[3])
 
     # a time-out under full budget is re-run alone (the machine may have been busy): both must time out
     cand = [r for r in rows if r["verdict"] == "timeout" and r["budget"] >= 2000]
     per_at = collections.Counter()
     confirm = []
     for r in sorted(cand, key=lambda r: (len(r["text64"]), r["id"], r["case"])):
-        if per_at[r["at"]] < 2 and len(confirm) < (8 if quick else 20):
+        if per_at[r["at"]] < 2 and len(confirm) < (4 if quick else 16):
             per_at[r["at"]] += 1
             confirm.append(r)
     confirmed = 0
@@ -262,7 +271,7 @@ def run(ctx):
         write_ndjson(inp, [{"id": r["id"], "case": r["case"], "text64": r["text64"], "toks": [], "mode": "replay",
                             "vk": "", "syn": False, "size": 0, "wf": "unknown"}])
         _run_shard(ctx, binpath, inp, outp, 2000, 99, time.time() + 60)
-        again = read_ndjson(outp)
+        again = read_ndjson(outp) if os.path.exists(outp) else []
         if not again:
             raise Infra("confirmation run wrote nothing")
         r["attempts"] = 2
@@ -329,6 +338,9 @@ def run(ctx):
                   "others": [x[1]["show"] for x in lst[1:6]]}
         for _ in lst:
             ctx.violation(key, what, replay)
+    if truncated and not fails:
+        raise Infra("parser harness exceeded its time budget without any finding (%d restarts, %d rows)"
+                    % (restarts, len(rows)))
     nc_kinds = collections.Counter(p["what"] for p in ncs)
     for what, n in sorted(nc_kinds.items()):
         ex = next(row_of[(p["id"], p["case"])] for p in ncs if p["what"] == what)
@@ -354,7 +366,7 @@ def run(ctx):
         "generated_inputs": len(inputs), "per_generator_run": per_job, "dropped_beyond_bound": dropped_big,
         "grammatical_by_dnfsize": dict(sizes),
         "verdicts": dict(verdicts), "mutated_cases": sum(1 for r in rows if r["mut"]),
-        "process_restarts": restarts, "process_crashes": crashes, "shards_degraded_after_flood": degraded,
+        "shards_truncated_by_time_budget": truncated, "process_restarts": restarts, "process_crashes": crashes, "shards_degraded_after_flood": degraded,
         "timeouts_confirmed_by_rerun": confirmed,
         "skipped_beyond_bound": infos.get("skipped", 0), "inconclusive_reduced_budget": infos.get("inconclusive", 0),
         "nonconformance": dict(nc_kinds),
